@@ -1,6 +1,7 @@
 """C02 — multipart messages stay whole, contiguous and correctly flagged."""
 from . import flow
 from . import C01
+from . import enggen as E
 
 
 def rand_msg(rng, seed):
@@ -122,6 +123,15 @@ def gen_stack(rng, tier):
                 continue
             for ev in ("detach", "attach"):
                 cases.append(["partialread %s %s %s %s" % (tr, sty, rty, ev)])
+    # a raw peer puts k frames of one message on the wire towards a socket that adds an identity frame of its own (ROUTER,
+    # manual framing so that nothing is stripped) and one that does not (PULL)
+    for rty, peer, extra in (("ROUTER", "DEALER", {"autodelim": 0}), ("ROUTER", "ROUTER", {"autodelim": 0}), ("PULL", "PUSH", {})):
+        for k in (253, 254, 255, 256):
+            c = {"role": "s", "type": rty}
+            c.update(extra)
+            hs = b"".join(b for _, b in E.peer_handshake(rng, c, peer_type=peer))
+            data = b"".join(E.frame(b"x" if i == 0 else b"y", more=(i < k - 1)) for i in range(k)) + E.frame(b"after")
+            cases.append(["rawpeer %s %s -" % (E.cfg_str(c), E.hexspec(hs + data))])
     for n in (1, 2, 3, 200, 252, 253, 254, 255, 256, 257, 300, 1000):
         for tr, s, r in (("tcp", "PUSH", "PULL"), ("tcp", "DEALER", "ROUTER"), ("inproc", "PUSH", "PULL"), ("tcp", "DEALER", "DEALER")):
             if tier == "quick" and n in (2, 200, 257, 1000) and s != "PUSH":
